@@ -941,7 +941,7 @@ Qed.
 
 Definition first_is_at (w : bytes) : bool := match w with 64 :: _ => true | _ => false end.
 
-Lemma pop_not_at left fs w rest : first_is_at w = false -> pop left fs (w :: rest) = PopArg w rest left.
+Lemma pop_not_at lits left fs w rest : first_is_at w = false -> pop lits left fs (w :: rest) = PopArg w rest left.
 Proof.
   intros H. destruct w as [|c w']; [destruct left; reflexivity|].
   destruct c as [|p]; [destruct left; reflexivity|].
@@ -978,7 +978,7 @@ Lemma retokenize_flag T sel dd fs left f s c rest :
   tokenize (S f) T sel dd fs left (s :: rest) =
   (let '(l, e) := tokenize f T sel dd fs left rest in (AFlag s c :: l, e)).
 Proof.
-  intros Hs Hat Hdd. cbn [tokenize]. rewrite (pop_not_at _ _ _ _ Hat). rewrite (dd_step _ _ Hdd).
+  intros Hs Hat Hdd. cbn [tokenize]. rewrite (pop_not_at _ _ _ _ _ Hat). rewrite (dd_step _ _ Hdd).
   destruct Hdd as [Hd1 _]. rewrite Hs. cbn [process].
   destruct dd as [[|]|]; try congruence; reflexivity.
 Qed.
@@ -997,8 +997,8 @@ Lemma retokenize_separated T sel dd fs left f s vt d0 d c v rest :
   tokenize (S f) T sel dd fs left (s :: v :: rest) =
   (let '(l, e) := tokenize f T sel dd fs left rest in (AWith s c v d :: l, e)).
 Proof.
-  intros Hs Hd Hat Hv Hdd. cbn [tokenize]. rewrite (pop_not_at _ _ _ _ Hat). rewrite (dd_step _ _ Hdd).
-  destruct Hdd as [Hd1 _]. rewrite Hs. rewrite (pop_not_at _ _ _ _ Hv).
+  intros Hs Hd Hat Hv Hdd. cbn [tokenize]. rewrite (pop_not_at _ _ _ _ _ Hat). rewrite (dd_step _ _ Hdd).
+  destruct Hdd as [Hd1 _]. rewrite Hs. rewrite (pop_not_at _ _ _ _ _ Hv).
   destruct d0 as [|x|x|x]; cbn in Hd; try discriminate; injection Hd as <-; cbn [process]; rewrite ?bytes_eqb_refl;
     destruct dd as [[|]|]; try congruence; reflexivity.
 Qed.
@@ -1032,14 +1032,14 @@ Lemma retokenize_joined T sel dd fs left f s vt d0 dl d c v rest :
   tokenize (S f) T sel dd fs left (joined_word s dl v :: rest) =
   (let '(l, e) := tokenize f T sel dd fs left rest in (AWith s c v d :: l, e)).
 Proof.
-  intros Hs Hd Hne Hat Hdd. cbn [tokenize]. rewrite (pop_not_at _ _ _ _ Hat). rewrite (dd_step _ _ Hdd).
+  intros Hs Hd Hne Hat Hdd. cbn [tokenize]. rewrite (pop_not_at _ _ _ _ _ Hat). rewrite (dd_step _ _ Hdd).
   destruct Hdd as [Hd1 _]. rewrite Hs.
   assert (Hneq : bytes_eqb (joined_word s dl v) s = false).
   { unfold joined_word. apply bytes_eqb_app_false. destruct dl; [discriminate|]. cbn. apply Hne. reflexivity. }
   destruct (process_conc_joined s c dl v) as [Hpc|[_ []]].
   destruct d0 as [|x|x|x]; cbn in Hd; try discriminate; injection Hd as <- <-; cbn [process];
     rewrite ?Hneq, Hpc; destruct dd as [[|]|]; try congruence;
-    destruct (pop left fs rest); reflexivity.
+    destruct (pop (t_rsp_literal T) left fs rest); reflexivity.
 Qed.
 
 (* ================================================================== Part 4: the fuel of [tokens_of] always suffices *)
@@ -1056,8 +1056,8 @@ Proof.
   - specialize (IH _ H). pose proof (Nat.le_max_r (length (split_ws c)) (max_file_tokens r)). lia.
 Qed.
 
-Lemma pop_measure fs : forall left stack a rest left',
-  pop left fs stack = PopArg a rest left' -> (mu fs left' rest < mu fs left stack)%nat.
+Lemma pop_measure lits fs : forall left stack a rest left',
+  pop lits left fs stack = PopArg a rest left' -> (mu fs left' rest < mu fs left stack)%nat.
 Proof.
   unfold mu. induction left as [|l IH]; intros stack a rest left' H.
   - destruct stack as [|w r]; cbn in H; [discriminate|].
@@ -1071,11 +1071,11 @@ Proof.
       { destruct c as [|p]; [discriminate|]. do 7 (destruct p as [p|p|]; try discriminate). reflexivity. }
       cbn [pop] in H.
       destruct (assoc name fs) as [content|] eqn:Ha.
-      * destruct (has_quote content).
+      * destruct (has_quote lits content).
         -- injection H as _ <- <-. cbn. lia.
         -- specialize (IH _ _ _ _ H). pose proof (assoc_tokens_bound _ _ _ Ha). rewrite app_length in IH. cbn. lia.
       * injection H as _ <- <-. cbn. lia.
-    + rewrite (pop_not_at _ _ _ _ Hat) in H. injection H as _ <- <-. cbn. lia.
+    + rewrite (pop_not_at _ _ _ _ _ Hat) in H. injection H as _ <- <-. cbn. lia.
 Qed.
 
 Lemma tokenize_enough_fuel T sel fs : forall fuel dd left stack,
@@ -1083,8 +1083,8 @@ Lemma tokenize_enough_fuel T sel fs : forall fuel dd left stack,
 Proof.
   induction fuel as [|f IH]; intros dd left stack Hmu; [lia|].
   cbn [tokenize].
-  destruct (pop left fs stack) as [|arg rest left1] eqn:Hp; [cbn; discriminate|].
-  pose proof (pop_measure _ _ _ _ _ _ Hp) as M1.
+  destruct (pop (t_rsp_literal T) left fs stack) as [|arg rest left1] eqn:Hp; [cbn; discriminate|].
+  pose proof (pop_measure _ _ _ _ _ _ _ Hp) as M1.
   set (dd' := match dd with Some false => if bytes_eqb arg dashdash then Some true else dd | _ => dd end).
   assert (Hrest : forall d, snd (tokenize f T sel d fs left1 rest) <> TFuel) by (intros d; apply IH; lia).
   destruct dd' as [[|]|].
@@ -1092,10 +1092,10 @@ Proof.
   - destruct (search T sel arg) as [i|].
     + destruct (process i arg _) as [a consumed|]; [|cbn; discriminate].
       destruct consumed.
-      * destruct (pop left1 fs rest) as [|a2 r2 l2] eqn:Hp2.
+      * destruct (pop (t_rsp_literal T) left1 fs rest) as [|a2 r2 l2] eqn:Hp2.
         -- assert (H0 : snd (tokenize f T sel (Some false) fs left1 []) <> TFuel) by (apply IH; unfold mu in *; cbn; lia).
            destruct (tokenize f T sel (Some false) fs left1 []). exact H0.
-        -- pose proof (pop_measure _ _ _ _ _ _ Hp2) as M2.
+        -- pose proof (pop_measure _ _ _ _ _ _ _ Hp2) as M2.
            assert (H0 : snd (tokenize f T sel (Some false) fs l2 r2) <> TFuel) by (apply IH; lia).
            destruct (tokenize f T sel (Some false) fs l2 r2). exact H0.
       * specialize (Hrest (Some false)). destruct (tokenize f T sel (Some false) fs left1 rest). exact Hrest.
@@ -1103,10 +1103,10 @@ Proof.
   - destruct (search T sel arg) as [i|].
     + destruct (process i arg _) as [a consumed|]; [|cbn; discriminate].
       destruct consumed.
-      * destruct (pop left1 fs rest) as [|a2 r2 l2] eqn:Hp2.
+      * destruct (pop (t_rsp_literal T) left1 fs rest) as [|a2 r2 l2] eqn:Hp2.
         -- assert (H0 : snd (tokenize f T sel None fs left1 []) <> TFuel) by (apply IH; unfold mu in *; cbn; lia).
            destruct (tokenize f T sel None fs left1 []). exact H0.
-        -- pose proof (pop_measure _ _ _ _ _ _ Hp2) as M2.
+        -- pose proof (pop_measure _ _ _ _ _ _ _ Hp2) as M2.
            assert (H0 : snd (tokenize f T sel None fs l2 r2) <> TFuel) by (apply IH; lia).
            destruct (tokenize f T sel None fs l2 r2). exact H0.
       * specialize (Hrest None). destruct (tokenize f T sel None fs left1 rest). exact Hrest.
@@ -1179,4 +1179,27 @@ Proof.
   - unfold compile_command. rewrite Hobj. apply in_or_app; right. apply in_or_app; left. right. right. left. reflexivity.
   - unfold compile_command. rewrite !app_assoc. apply last_last.
   - exact Hin.
+Qed.
+
+(* ================================================================== Part 6: what generate_hash_key hands to the key functions *)
+
+Definition has_whole_list (spec : list keycomp) (d : dest) : bool :=
+  existsb (fun c => match c with KList d' => dest_eqb d' d | _ => false end) spec.
+
+Lemma key_words_cover spec p po d w :
+  has_whole_list spec d = true -> In w (get_list d (p_lists p)) -> In w (key_words spec p po).
+Proof.
+  unfold has_whole_list, key_words. intros H Hw. apply existsb_exists in H as [c [Hc Hd]].
+  apply in_flat_map. exists c. split; [exact Hc|].
+  destruct c as [d'| | |]; try discriminate. apply dest_eqb_eq in Hd. subst d'. exact Hw.
+Qed.
+
+(* if the result key's vector holds the whole common and arch lists, every hashed argument reaches hash_key *)
+Lemma hashed_args_reach_key spec p po :
+  has_whole_list spec DCommon = true -> has_whole_list spec DArch = true ->
+  incl (hashed_args p) (key_words spec p po).
+Proof.
+  intros H1 H2 w Hw. unfold hashed_args in Hw. apply in_app_or in Hw as [Hw|Hw].
+  - apply (key_words_cover spec p po DCommon); assumption.
+  - apply (key_words_cover spec p po DArch); assumption.
 Qed.
